@@ -1317,6 +1317,7 @@ func runC01(r *Run, rng *Rng, replay string) {
 	c01sstseqPhase(r, rng, nCols/5)
 	c01styleseqPhase(r, rng, nCols/4)
 	c01mergeseqPhase(r, rng, nCols/4)
+	c01mergeopsPhase(r, rng, nCols/4)
 	lap("witnesses+attribute histories+cols")
 	// 1. fixed boundary payloads through every string op
 	for i, s := range c01fixedPayloads() {
@@ -1510,6 +1511,8 @@ func c01replay(r *Run, path string) {
 			c01colseq(r, rest)
 		case "mergeseq":
 			c01mergeseq(r, rest)
+		case "mergeops":
+			c01mergeops(r, rest)
 		case "puts":
 			c01puts(r, rest)
 		case "setint":
